@@ -451,9 +451,12 @@ def widen(rng, k):
 
 
 def shrink(case):
-    """drop operations, last first; then processors"""
+    """the runner keeps the FIRST candidate that still fails: shortest prefixes of the program first,
+    then the program with one operation dropped (last first)"""
     head, _, ops = case.partition(" ; OPS ")
     ol = [o for o in ops.split(" | ") if o.strip()]
+    for n in range(1, len(ol)):
+        yield head + " ; OPS " + " | ".join(ol[:n])
     for i in range(len(ol) - 1, -1, -1):
         yield head + " ; OPS " + " | ".join(ol[:i] + ol[i + 1:])
 
